@@ -42,6 +42,7 @@ CORPORA = {
     "sized": dict(model="MC_Sized", quick=dict(SizedSpread=9), thorough=dict(SizedSpread=17), profiles=DEV_REL, place="both"),
     "adv": dict(model="MC_Adv", quick={}, thorough={}, profiles=DEV_REL, place="both"),
     "round8": dict(model="MC_Round8", quick={}, thorough={}, profiles=DEV_REL, place="end"),
+    "custom": dict(model="MC_Custom", quick=dict(MaxSize=96), thorough=dict(MaxSize=96), profiles=DEV_REL, place="both"),
     "load": dict(model="MC_Load", quick=dict(MaxT=72), thorough=dict(MaxT=160), profiles=DEV_REL, place="both"),
     "walk": dict(model="MC_Walk", quick=dict(MaxT=32), thorough=dict(MaxT=40), profiles=DEV_REL, place="both"),
 }
@@ -63,8 +64,9 @@ CHECKS = {
                 rule="TLC-judged: every interval end point +-2 of the three classification tables and structured values, each with 3 partner "
                      "values for the equality relations; all 256 framebuffer type bytes; native sweep of u32 values (stride 1 = all 2^32 in the "
                      "thorough tier) against the interval tables exported from the specification"),
-    "C15": dict(corpora=["dst", "sized", "hdst", "fields", "getters"],
-                rule="every built-in kind of both crates viewed at every declared size (variable-length kinds 0..base+3*elem+DstExtra, "
+    "C15": dict(corpora=["custom", "dst", "sized", "hdst", "fields", "getters"],
+                rule="user-defined family (sized tags with 0..6 extra words; DST tails with element sizes 1,2,3,4,8,24 x fixed parts 8..24) "
+                     "x all tag sizes 8..96 through the public get_tag; every built-in kind of both crates viewed at every declared size (variable-length kinds 0..base+3*elem+DstExtra, "
                      "header-tag kinds 0..40) and at its conformant size; non-trivial = casts that return a view"),
     "C17": dict(corpora=["str", "ctor", "dst"],
                 rule="parse: all strings of length <= MaxStr over a 10-byte alphabet (NUL, ASCII, pieces of 2/3/4-byte sequences, invalid bytes) "
@@ -99,7 +101,7 @@ CHECKS = {
     "C19": dict(corpora=["elf"],
                 rule="all (count 0..MaxN, entry size in ElfSizes, string-table index 0..n+1, section bytes in {0, n*es-1, n*es, n*es+8}, "
                      "raw-type rotation); names resolved through a string table mapped at a fixed external address"),
-    "C01": dict(corpora=["fields", "getters", "dst", "sized", "fb", "rsdp", "adv", "efi", "elf", "walk", "load"],
+    "C01": dict(corpora=["fields", "getters", "dst", "sized", "custom", "fb", "rsdp", "adv", "efi", "elf", "walk", "load"],
                 rule="union of the boot-information corpora (every kind, every declared size, all framebuffer type bytes, "
                      "all walks); every call of every session is checked for crash/hang and for extents inside the owning tag"),
     "C04": dict(corpora=["fields", "getters", "fb", "rsdp"],
